@@ -55,8 +55,9 @@ MANIFEST = {
                   "harness (they use mp4ff's own box encoders/decoders and GetFullSamples). The models are hand transcriptions "
                   "tied to the code by differential runs on generated inputs only; C11FetchModel runs on C09Model's table "
                   "structs and C05FragModel's fragments, whose own correspondence is checked by C09 and C05. The two views of a "
-                  "trak (C11Model.track for the plan, C09Model.tables for the fetch) are related by the definition itrack_of, "
-                  "exercised by the W correspondence. uint64 time accumulators are not wrapped in C11Model (assumption: total "
+                  "trak (C11Model.track for the plan, C09Model.tables for the fetch) are related by the definition itrack_of; the "
+                  "queries of the two models are PROVED equal on consistent tables (C11_itrack_decode_time, C11_itrack_cto, "
+                  "C11_itrack_sample_nr_at_time) and the composition is exercised by the W correspondence. uint64 time accumulators are not wrapped in C11Model (assumption: total "
                   "duration < 2^63 ticks; C09Spec.consistent implies it for the fetch). The writers are modelled per track "
                   "(the tool interleaves tracks and stops at the first error of any track).",
 }
